@@ -12,7 +12,7 @@ DECL = [
     'int sw(int a) { if (a) if (a > 1) return 1; else return 2; return 0; }',
 ]
 EXPR = ['g == 1', 'x <= 3 && g > 0', 'a[g] + f(1, g, 2) * 2', 'forall (i : int[0,2]) a[i] > 0', 'b ? g : 1', 's.a == 1 && s.b', 'g = 1, b = false', 'c!', 'd[g]?',
-        "x' == 0", 'exists (j : id_t) j == g', 'sum (k : int[0,1]) k + g', '(g + 1) * -g % 3 << 1', 'g++ + --g', 'not b or b imply b', 'P.L and P.v > 0', 'deadlock', 'x - y < 3', 'true', '1 && g == 2']
+        "x' == 0", 'exists (j : id_t) j == g', 'sum (k : int[0,1]) k + g', '(g + 1) * -g % 3 << 1', 'g++ + --g', 'not b or b imply b', 'P.L and P.v > 0', 'deadlock', 'x - y < 3', 'true', '1 && g == 2', "P'.L", "P'.v > 0 and g", "(P).L", "s'.a", 'forall (i : bool) a[0] > 0', 'exists (k : clock) true', 'sum (q : double) 1', 'forall (i : S) true']
 SYSTEM = ['P1 = P(1); system P1;', 'system P;', 'P1 = P(1); P2(int[0,1] q) = P(q); system P1 < P2;', 'Q = R(); system Q, P;', 'system P; progress { g; } gantt { G(i:int[0,1]): g > i -> 1; }']
 PARAMS = ['int a, int &b, const int k', 'int[0,3] q, bool &c, chan &ch', 'S p', '']
 SELECT = ['i : int[0,2]', 'i : int[0,2], j : id_t', 'k : sc']
